@@ -152,10 +152,14 @@ def check(ctx: Ctx) -> None:
                          "remove_class uses list.remove(), which deletes only the first occurrence: a token that occurs twice survives and "
                          "has_class stays true", witness="div(class_='a b a').remove_class('a')")
         for w in r["writes"]:
-            if w["via"] == "TagAttrDict.update":
+            if w["via"] == "TagAttrDict.update" or (w["via"] == "TagAttrDict.__setitem__" and w["args"] and w["args"][0] == "class"):
+                # attrs.update({"class": v}) and attrs["class"] = v both normalise v and replace the stored value
                 nu += 1
-                d = w["args"][0] if w["args"] else None
-                val = d.items.get("class") if isinstance(d, SDict) else None
+                if w["via"] == "TagAttrDict.__setitem__":
+                    val = w["args"][1] if len(w["args"]) > 1 else None
+                else:
+                    d = w["args"][0] if w["args"] else None
+                    val = d.items.get("class") if isinstance(d, SDict) else None
                 j = val.frags[0] if isinstance(val, SStr) and len(val.frags) == 1 and val.frags[0].kind == "OP" else None
                 ok = j is not None and isinstance(j.a, tuple) and j.a[:2] == ("join", " ")
                 if not ctx.check(ok, "C16.remove", "remaining tokens are re-joined with one space", where, f"update class={short(val)}",
@@ -287,7 +291,16 @@ def css_obligations(ctx: Ctx) -> None:
         return ({a.args[0].arg: c, a.kwarg.arg: kw}, None)
 
     cfg = Config()
-    cfg.stop_at_loop = ("css", 0)
+    # the loop over the keyword arguments, in css() itself or in a helper / generator it consumes
+    key = None
+    cfg0 = Config()
+    cfg0.loop_effects = False
+    for l0 in I.run_function("htmltools._util", "css", mk, cfg0):
+        for rec0 in l0.run.loops:
+            d0 = getattr(rec0.iter_value, "iter_descr", None)
+            if key is None and d0 is not None and d0[0] == "items" and d0[1] is l0.run.__dict__["o"][0]:
+                key = rec0.__dict__.get("loop_key")
+    cfg.stop_at_loop = key or ("css", 0)
     n = 0
     for l in I.run_function("htmltools._util", "css", mk, cfg):
         rec = getattr(l.run, "stop_loop_record", None)
